@@ -30,6 +30,7 @@ try:
         e = dict(clean_env); e['PYTHONPATH'] = src; e['TQDM_DISABLE'] = '1'
         text = open(demo).read()
         # demos written against the agent's own worktree path: point them at the scratch tree
+        text = text.replace('/tmp/wt/standin', os.path.join(VERIF, 'tsim', 'fakes'))
         for w in ('/tmp/wt/%s' % meta.get('property', ''),):
             text = text.replace(w, src)
         dp = os.path.join(root, 'demo.py'); open(dp, 'w').write(text)
@@ -64,7 +65,8 @@ try:
         if r.returncode == 2: print(r.stdout[-1500:])
     if not a.no_store:
         dst = os.path.join(VERIF, 'seeded', a.sid); os.makedirs(dst, exist_ok=True)
-        shutil.copy(patch, os.path.join(dst, 'patch.diff')); shutil.copy(demo, os.path.join(dst, 'demo.py'))
+        shutil.copy(patch, os.path.join(dst, 'patch.diff'))
+        open(os.path.join(dst, 'demo.py'), 'w').write(open(demo).read().replace('/tmp/wt/standin', os.path.join(VERIF, 'tsim', 'fakes')))
         old = {}
         if os.path.exists(os.path.join(dst, 'meta.json')):
             old = json.load(open(os.path.join(dst, 'meta.json')))
